@@ -42,7 +42,8 @@ CHUNK = 4
 PROBES = ["resumed_id", "resumed_ticket10", "resumed_ticket13",
           "fallback_full", "expired_by_server_clock", "clock_skew",
           "rotated_key", "evicted", "tampered", "foreign", "fatal_close",
-          "crash", "changed_hello", "client_auth_resumed", "api_refused"]
+          "crash", "changed_hello", "client_auth_resumed", "api_refused",
+          "external_psk", "external_psk_over_ticket"]
 COMPONENTS_REAL = ["tlslite client/server resumption paths, SessionCache, "
                    "ticket encryption/decryption, Session/Ticket objects"]
 COMPONENTS_STUB = ["socket", "os.urandom", "time.time (per-node SimClock)"]
@@ -69,6 +70,11 @@ class Srv(object):
             if self.tickets else True
         self.ticket_count = [2, 1, 0][ch.draw(3, name + ".tcount")]
         self.inserted = 0      # sessions stored in the cache so far
+        # a long-lived server: the ring has been written n times before the
+        # history starts (position and wrap state of the ring vary per run)
+        self.prewrap = ch.draw(2 * self.max_entries + 1, name + ".prewrap")
+        # external TLS 1.3 PSK configured next to the ticket keys
+        self.psk = [None, "sha256", "sha384", None][ch.draw(4, name + ".psk")]
 
     def settings(self, ver):
         d = {"minVersion": list(ver), "maxVersion": list(ver),
@@ -76,7 +82,46 @@ class Srv(object):
              "ticket_count": self.ticket_count}
         if self.tickets:
             d["ticketKeys"] = list(self.keys)
+        if self.psk and tuple(ver) == (3, 4):
+            d["pskConfigs"] = [list(scen.PSK_HEX) + [self.psk]]
         return d
+
+
+def cache_fill(S, n, viol, hist=None):
+    """Other clients' sessions land in the server's cache."""
+    from tlslite.api import Session
+    with S.node:
+        for j in range(n):
+            d = Session()
+            d.resumable = True
+            d.sessionID = bytearray(b"dummy%03d%03d" % (S.inserted, j))
+            d.cipherSuite = 0x2f
+            try:
+                S.cache[d.sessionID] = d
+            except Exception as e:      # noqa
+                viol.append({"rule": "cache_internal_error",
+                             "sig": type(e).__name__,
+                             "msg": "SessionCache.__setitem__ raised %r "
+                             "[history=%s]" % (e, json.dumps(hist))})
+            S.inserted += 1
+
+
+def psk_identities(ext41):
+    """identities of a ClientHello pre_shared_key extension body"""
+    out = []
+    try:
+        n = int.from_bytes(ext41[:2], "big")
+        i = 2
+        while i < 2 + n:
+            ln = int.from_bytes(ext41[i:i + 2], "big")
+            out.append(bytes(ext41[i + 2:i + 2 + ln]))
+            i += 2 + ln + 4
+    except Exception:       # noqa
+        pass
+    return out
+
+
+PSK_ID = bytes.fromhex(scen.PSK_HEX[0])
 
 
 def run(job, streams=None):
@@ -90,6 +135,9 @@ def run(job, streams=None):
     clocks = {"A": kernel.SimClock(), "B": kernel.SimClock()}
     srv = {n: Srv(n, ch, clocks[n]) for n in "AB"}
     viol = []
+    for S_ in srv.values():
+        if S_.prewrap:
+            cache_fill(S_, S_.prewrap, viol)
     probes = {}
     hist = []
     stored = []      # client-side: dicts with 'session' and model info
@@ -123,6 +171,8 @@ def run(job, streams=None):
             sc["cset"]["useEncryptThenMAC"] = False
         if mods.get("ciphers"):
             sc["cset"]["cipherNames"] = mods["ciphers"]
+        if mods.get("psk"):
+            sc["cset"]["pskConfigs"] = [list(scen.PSK_HEX) + [mods["psk"]]]
         cnode = kernel.Node("c%d" % i, seed, cclock)
         snode = kernel.Node("s%d" % i, seed, S.clock)
         pair = nodes.Pair(sim, sc, policy="ideal", cnode=cnode, snode=snode,
@@ -154,6 +204,14 @@ def run(job, streams=None):
         if "sh" in obs:
             if ver == (3, 4):
                 resumed = 41 in obs["sh"]["ext"]
+                if resumed:
+                    idents = psk_identities(
+                        (obs.get("ch") or {}).get("ext", {}).get(41, b""))
+                    sel = int.from_bytes(obs["sh"]["ext"][41][:2], "big")
+                    if sel < len(idents) and idents[sel] == PSK_ID:
+                        # the external PSK was selected: not a resumption
+                        resumed = False
+                        info["ext_psk"] = True
             else:
                 resumed = 14 not in obs["server_msgs"]
         info["resumed_wire"] = resumed
@@ -234,6 +292,9 @@ def run(job, streams=None):
                                        "aes256"]
                 if ch.draw(5, "h.keepsrv") != 1:
                     sname = offer["server"]
+            if tuple(ver) == (3, 4) and srv[sname].psk and \
+                    ch.draw(3, "h.psk") == 1:
+                mods["psk"] = srv[sname].psk
             end = ["clean", "clean", "fatal_c", "fatal_s", "crash"][
                 ch.draw(5, "h.end")]
             hist.append(["connect", sname, list(ver), fl,
@@ -251,9 +312,23 @@ def run(job, streams=None):
                 want = None
                 if info["resumed_wire"] and offer:
                     want = offer["client_chain"]
-                elif fl == "cauth":
+                elif fl == "cauth" and not (
+                        info.get("ext_psk") and
+                        11 not in info["obs"]["client_msgs"]):
                     from sim import creds, views as _views
                     want = _views.chain_digest(creds.load("client", "rsa")[0])
+                if info.get("ext_psk"):
+                    probes["external_psk"] = 1
+                    if offer and offer["session"].tickets:
+                        probes["external_psk_over_ticket"] = 1
+                    if info["view_c"]["resumed"] or info["view_s"]["resumed"]:
+                        v("resumed_flag_disagreement", "external_psk|c=%s,s=%s"
+                          % (info["view_c"]["resumed"],
+                             info["view_s"]["resumed"]),
+                          "external PSK selected on the wire (no resumption) "
+                          "but connection.resumed: client %s server %s" %
+                          (info["view_c"]["resumed"],
+                           info["view_s"]["resumed"]))
                 got = info["view_s"]["client_chain"]
                 if got != want and not (info["resumed_wire"] and
                                         ver == (3, 4) and got is None):
@@ -348,15 +423,7 @@ def run(job, streams=None):
             S = srv["AB"[ch.draw(2, "h.evsrv")]]
             n = 1 + ch.draw(S.max_entries + 1, "h.evn")
             hist.append(["evict", S.name, n])
-            from tlslite.api import Session
-            with S.node:
-                for j in range(n):
-                    d = Session()
-                    d.resumable = True
-                    d.sessionID = bytearray(b"dummy%03d%03d" % (S.inserted, j))
-                    d.cipherSuite = 0x2f
-                    S.cache[d.sessionID] = d
-                    S.inserted += 1
+            cache_fill(S, n, viol, hist)
             probes["evicted"] = 1
         elif k in (8, 9) and stored:
             src = stored[ch.draw(len(stored), "h.tamp")]
@@ -411,7 +478,8 @@ def judge_attempt(info, offer, S, mods, sname, v, probes, srv):
     ext = chh["ext"]
     mech = None
     if ver == (3, 4):
-        if 41 in ext:
+        if 41 in ext and [i for i in psk_identities(ext[41])
+                          if i != PSK_ID]:
             mech = "ticket13"
     else:
         if 35 in ext and len(ext[35]) > 0:
@@ -502,8 +570,10 @@ def judge_attempt(info, offer, S, mods, sname, v, probes, srv):
             vc, vs = info["view_c"], info["view_s"]
             for side, vw in (("client", vc), ("server", vs)):
                 if vw["suite"] != offer["suite"]:
-                    v("resumed_params", "suite|" + side, "resumed with suite "
-                      "%#x, original %#x" % (vw["suite"], offer["suite"]))
+                    v("resumed_params", "suite|%s|%s" % (
+                        side, "tls13" if ver == (3, 4) else "tls<=1.2"),
+                      "resumed with suite %#x, original %#x" %
+                      (vw["suite"], offer["suite"]))
                 if ver < (3, 4) and vw["ems"] != offer["ems"]:
                     v("resumed_params", "ems|" + side, "EMS %r, original %r"
                       % (vw["ems"], offer["ems"]))
